@@ -543,9 +543,9 @@ var Engine = &core.Engine{
 	},
 	Cases: func(tier string) int {
 		if tier == "thorough" {
-			return 600000
+			return 1200000
 		}
-		return 10000
+		return 60000
 	},
 	Batch:         func(string) int { return 256 },
 	Run:           run,
